@@ -665,9 +665,9 @@ func FuzzTextsOPB(f *testing.F)     { vf.Fuzz(f, "C13", subOPB) }
 func FuzzTextsWCNF(f *testing.F)    { vf.Fuzz(f, "C13", subWCNF) }
 
 func init() {
-	subDimacsSolver = vf.Sub[CNFCase]{Name: "dimacs-solver", Quick: 15000, Thorough: 200000, Gen: genCNF("solver"), Check: checkCNF, Floor: 0.3,
+	subDimacsSolver = vf.Sub[CNFCase]{Name: "dimacs-solver", Quick: 15000, Thorough: 100000, Gen: genCNF("solver"), Check: checkCNF, Floor: 0.3,
 		Rule: "DIMACS text for solver.ParseCNF written from a CNF (n<=8, empty clauses, duplicate literals, unused declared variables) with layout knobs: comment preamble with or without blank after 'c', header spacing, arbitrary blanks/tabs/newlines between tokens (clauses spanning lines, several clauses per line), comment lines between clauses, CRLF, optional final newline; oracle: the parsed problem, evaluated without solving from its exported data, has exactly the models of the CNF over the declared variables; non-trivial = >=2 clauses and >=1 knob away from the conventional layout"}
-	subDimacsExplain = vf.Sub[CNFCase]{Name: "dimacs-explain", Quick: 15000, Thorough: 200000, Gen: genCNF("explain"), Check: checkCNF, Floor: 0.3,
+	subDimacsExplain = vf.Sub[CNFCase]{Name: "dimacs-explain", Quick: 15000, Thorough: 100000, Gen: genCNF("explain"), Check: checkCNF, Floor: 0.3,
 		Rule: "the same DIMACS texts for explain.ParseCNF; oracle: NbVars/NbClauses match the header and the parsed clause list equals the CNF's, clause by clause; non-trivial as above"}
 	subOPB = vf.Sub[OPBCase]{Name: "opb", Quick: 10000, Thorough: 120000, Gen: genOPB, Check: checkOPB, Floor: 0.3,
 		Rule: "OPB text written from a PB problem (coefficients of either sign, >= / = / <= (as negated >=), trivially true/false constraints, optional min: line with signed coefficients) with layout knobs: '*' comments, explicit '+' or not, several blanks, CRLF, blank lines, optional final newline, and the zero-space forms the grammar allows ('>=0', '0;', 'min:+1'); oracle: parsed problem evaluated without solving has the text's models; Optimal = brute-force optimum; for up to 3 drawn assignments the text extended with unit constraints pinning the assignment yields exactly that assignment's cost, or Unsat when it violates a constraint; non-trivial as above"}
